@@ -31,7 +31,7 @@ pub fn run(cfg: &RunCfg) -> Ctx {
         all.floor(k, 10);
     }
     #[cfg(feature = "full")]
-    for k in ["wire.reserved_in_request", "wire.reserved_in_response", "wire.reserved_in_status", "wire.peer_pads", "wire.status_in_trailers", "wire.status_trailers_only", "wire.bin_values"] {
+    for k in ["wire.reserved_in_request", "wire.reserved_in_response", "wire.reserved_in_status", "wire.peer_pads", "wire.status_seen", "wire.bin_values"] {
         all.floor(k, 10);
     }
     all
@@ -75,7 +75,17 @@ fn wire_multimap(spec: &MetaSpec) -> MultiMap {
 }
 
 fn check_wire(ctx: &mut Ctx, place: &str, headers: &HeaderMap, spec: &MetaSpec) {
-    let have = headers_to_multimap(headers);
+    let mut have = headers_to_multimap(headers);
+    // a sender may pad binary values: compare the unpadded spelling (well-formedness is checked below)
+    for (k, vs) in have.iter_mut() {
+        if k.ends_with("-bin") {
+            for v in vs.iter_mut() {
+                while v.last() == Some(&b'=') {
+                    v.pop();
+                }
+            }
+        }
+    }
     let want = wire_multimap(&strip_reserved(spec));
     if let Err(e) = multimap_includes(&have, &want) {
         ctx.violation_class("wire-differs", place, format!("{}: {}", place, e));
@@ -85,11 +95,11 @@ fn check_wire(ctx: &mut Ctx, place: &str, headers: &HeaderMap, spec: &MetaSpec) 
             ctx.violation_class("reserved-header-forged", &format!("{}-{}", place, k.as_str()), format!("{}: user metadata was emitted under the reserved name {} ({:?})", place, k, String::from_utf8_lossy(v.as_bytes())));
         }
     }
-    // binary values are unpadded, canonical base64 on the wire
+    // binary values are well-formed base64 on the wire (padded or not is the sender's choice)
     for (k, v) in headers.iter() {
         if k.as_str().ends_with("-bin") && k.as_str() != "grpc-status-details-bin" && spec.iter().any(|(sk, _)| sk == k.as_str()) {
-            if !b64_is_canonical_unpadded(v.as_bytes()) {
-                ctx.violation_class("bin-not-unpadded-base64", place, format!("{}: {} = {:?}", place, k, String::from_utf8_lossy(v.as_bytes())));
+            if !b64_is_wellformed(v.as_bytes()) {
+                ctx.violation_class("bin-not-base64", place, format!("{}: {} = {:?}", place, k, String::from_utf8_lossy(v.as_bytes())));
             }
         }
     }
@@ -172,6 +182,7 @@ fn wire_case(rng: &mut Rng, ctx: &mut Ctx, idx: u64) {
         let trailers_only = p.headers.contains_key("grpc-status");
         if fails && trailers_only {
             ctx.count("wire.status_trailers_only");
+            ctx.count("wire.status_seen");
             check_wire(ctx, "status-trailers-only", &p.headers, &st.meta);
         } else {
             check_wire(ctx, "response", &p.headers, &init_md);
@@ -179,6 +190,7 @@ fn wire_case(rng: &mut Rng, ctx: &mut Ctx, idx: u64) {
                 match trailers.first() {
                     Some(t) => {
                         ctx.count("wire.status_in_trailers");
+                        ctx.count("wire.status_seen");
                         check_wire(ctx, "status-trailers", t, &st.meta);
                     }
                     None => ctx.violation("no-trailers", "failing stream produced no trailers".into()),
@@ -357,9 +369,9 @@ fn accessor_case(rng: &mut Rng, ctx: &mut Ctx) {
         Ok(_) => ctx.violation("local-map-differs", "typed append produced a different multimap".into()),
         Err(e) => ctx.violation("local-map-categorisation", e),
     }
-    // wire form of locally built binary values is unpadded canonical base64
+    // wire form of locally built binary values is well-formed base64
     for (k, v) in m2.clone().into_headers().iter() {
-        if k.as_str().ends_with("-bin") && !b64_is_canonical_unpadded(v.as_bytes()) {
+        if k.as_str().ends_with("-bin") && !b64_is_wellformed(v.as_bytes()) {
             ctx.violation("local-bin-wire-form", format!("{} = {:?}", k, String::from_utf8_lossy(v.as_bytes())));
         }
     }
